@@ -54,6 +54,8 @@ pub struct SerObs {
     pub pretty: Result<String, String>,
     pub pretty_tokens: Result<Vec<(usize, usize, bool, String, bool)>, ()>,
     pub outputs: Vec<(usize, String)>,
+    /// serialize_xml_write with the same parameters (plain, indented) and the *_with_normalizer forms with the no-op normaliser
+    pub written: Vec<(String, Result<Vec<u8>, String>)>,
     pub tok_events: Option<Vec<(usize, String)>>,     // the (node, event) each token / pretty token is paired with
     pub ptok_events: Option<Vec<(usize, String)>>,
 }
@@ -87,7 +89,18 @@ pub fn observe(xot: &Xot, reg: &Reg, index: &HashMap<Node, usize>, node: Node, p
     let outputs = xot.outputs(node).map(|(n, o)| (idx(n), output_text(reg, &o))).collect();
     let tok_events = guard(|| xot.tokens(node, tp(), NoopNormalizer).map(|(n, o, _)| (idx(n), output_text(reg, &o))).collect::<Vec<_>>()).ok();
     let ptok_events = guard(|| xot.pretty_tokens(node, tp(), &suppress, NoopNormalizer).map(|(n, o, _)| (idx(n), output_text(reg, &o))).collect::<Vec<_>>()).ok();
-    SerObs { ser, tokens, pretty, pretty_tokens, outputs, tok_events, ptok_events }
+    let mut written: Vec<(String, Result<Vec<u8>, String>)> = vec![];
+    for (label, params) in [("serialize_xml_write", xp.clone()), ("serialize_xml_write(indented)", xml::Parameters { indentation: Some(Indentation { suppress: suppress.clone() }), ..xp.clone() })] {
+        let mut buf: Vec<u8> = vec![];
+        let r = match guard(|| xot.serialize_xml_write(params.clone(), node, &mut buf)) { Ok(Ok(())) => Ok(buf.clone()), Ok(Err(e)) => Err(err_kind(&e)), Err(()) => Err("PANIC".into()) };
+        written.push((label.to_string(), r));
+        let mut buf2: Vec<u8> = vec![];
+        let r2 = match guard(|| xot.serialize_xml_write_with_normalizer(params.clone(), node, &mut buf2, NoopNormalizer)) { Ok(Ok(())) => Ok(buf2.clone()), Ok(Err(e)) => Err(err_kind(&e)), Err(()) => Err("PANIC".into()) };
+        written.push((format!("{}_with_normalizer", label), r2));
+        let r3 = match guard(|| xot.serialize_xml_string_with_normalizer(params.clone(), node, NoopNormalizer)) { Ok(Ok(s)) => Ok(s.into_bytes()), Ok(Err(e)) => Err(err_kind(&e)), Err(()) => Err("PANIC".into()) };
+        written.push((format!("{}: serialize_xml_string_with_normalizer", label), r3));
+    }
+    SerObs { ser, tokens, pretty, pretty_tokens, outputs, written, tok_events, ptok_events }
 }
 
 pub fn obs_text(o: &SerObs) -> String {
